@@ -200,3 +200,54 @@ func vNewClient(conn net.Conn, version int, compression proto.Compression, metho
 		server:          proto.ServerHello{Name: "srv", Revision: version},
 	}
 }
+
+// VerifServer is a scripted ClickHouse endpoint for harnesses outside this package (chpool):
+// every dial yields a fresh simulated connection that answers the hello and then Pongs.
+type VerifServer struct {
+	conns []*vConn
+}
+
+func VerifNewServer() *VerifServer { return &VerifServer{} }
+
+func (s *VerifServer) DialContext(ctx context.Context, network, address string) (net.Conn, error) {
+	var script rb
+	script.uv(0)
+	script.str("srv")
+	script.vint(1)
+	script.vint(2)
+	script.vint(54460)
+	script.str("UTC")
+	script.str("dn")
+	script.vint(3)
+	for i := 0; i < 8; i++ {
+		script.uv(4)
+	}
+	c := vNewConn(script.b)
+	c.maxIdle = 1
+	s.conns = append(s.conns, c)
+	return c, nil
+}
+
+func (s *VerifServer) Dials() int           { return len(s.conns) }
+func (s *VerifServer) Closed(i int) bool    { return s.conns[i].closed > 0 }
+func (s *VerifServer) Pings(i int) int      { n := 0; for _, b := range s.conns[i].out { if b == 4 { n++ } }; return n }
+func (s *VerifServer) Cut(i int)            { s.conns[i].cutAt = s.conns[i].rpos }
+func (s *VerifServer) OpenConns() int {
+	n := 0
+	for _, c := range s.conns {
+		if c.closed == 0 {
+			n++
+		}
+	}
+	return n
+}
+
+// VerifConnIndex tells which dialed connection a client runs on (-1: none of them).
+func (s *VerifServer) VerifConnIndex(c *Client) int {
+	for i, vc := range s.conns {
+		if c.conn == net.Conn(vc) {
+			return i
+		}
+	}
+	return -1
+}
